@@ -1,5 +1,5 @@
 SPECIFICATION Spec
 CONSTANTS Keys = {"a", "b"}  MaxOps = 7  MaxFaults = 2  MaxCrashes = 3
-INVARIANTS DiskIsWrittenPrefix AckedSurvive MemNeverAhead MemBehindOnlyInside
+INVARIANTS DiskIsWrittenPrefix AckedSurvive MemNeverAhead MemBehindOnlyInside ReadsSeeDisk LoadOnlyWhenNeeded
 PROPERTIES FailedWriteInvisible AfterRecovery
 CHECK_DEADLOCK FALSE
